@@ -6,5 +6,5 @@ print("|---|---|---|---|---|---|")
 for f in sorted(glob.glob("/verif/evidence/C*.json")):
     d = json.load(open(f)); c = d["coverage"]
     fns = c.get("functions_under_contract") or []
-    b = "; ".join(f"{x['harness'].replace('TestGovcHarness_','')} ({x['cases']})" for x in c.get("bounded", []))
+    b = "; ".join(f"{x['harness'].replace('TestGovcHarness_','')} ({x['cases']})" for x in (c.get("bounded") or []))
     print(f"| {d['property_id']} | {d['level']} | {len(fns)} / {c.get('obligations')} / {c.get('discharged')} | {c.get('known_findings', d.get('known', ''))} | {b} | {d.get('wall_s',0):.0f} s |")
